@@ -49,6 +49,9 @@ class Renderer:
         k = c[0]
         if k == 'cmp':
             return ast.Compare(left=self.expr(c[2]), ops=[CMPS[c[1]]()], comparators=[self.expr(c[3])])
+        if k == 'cmp2':
+            # chained comparison  e1 op1 e2 op2 e3
+            return ast.Compare(left=self.expr(c[2]), ops=[CMPS[c[1]](), CMPS[c[3]]()], comparators=[self.expr(c[4]), self.expr(c[5])])
         if k in ('and', 'or'):
             # a right-nested run of the same operator is one Python chain:  x and y and z
             vals = [self.cond(c[1])]
@@ -230,6 +233,12 @@ class Interp:
             w = max(self.selfw(c[2]), self.selfw(c[3]))
             x, y = self.expr(c[2], env, w), self.expr(c[3], env, w)
             return {'==': x == y, '!=': x != y, '<': x < y, '<=': x <= y, '>': x > y, '>=': x >= y}[c[1]]
+        if t == 'cmp2':
+            w = max(self.selfw(c[2]), self.selfw(c[4]), self.selfw(c[5]))
+            x, y, z = self.expr(c[2], env, w), self.expr(c[4], env, w), self.expr(c[5], env, w)
+            rel = {'==': lambda p, q: p == q, '!=': lambda p, q: p != q, '<': lambda p, q: p < q, '<=': lambda p, q: p <= q,
+                   '>': lambda p, q: p > q, '>=': lambda p, q: p >= q}
+            return rel[c[1]](x, y) and rel[c[3]](y, z)
         if t == 'and':
             # both operands are evaluated in Verilog: both must be in the domain
             x = self.cond(c[1], env)
